@@ -135,7 +135,10 @@ Join(toks, k, ws) ==
   IF k > Len(toks) THEN <<>>
   ELSE (IF k = 1 THEN <<>> ELSE Sep(toks[k - 1], toks[k], k, ws)) \o toks[k].s \o Join(toks, k + 1, ws)
 
-Unparse(e, st) == Join(ET(e, st), 1, st.ws)
+\* ExprWhitespace "may be freely added ... before or after any ExprToken" (XPath 1.0 3.7): also before the first and
+\* after the last one (style field pad, optional)
+Unparse(e, st) == LET body == Join(ET(e, st), 1, st.ws)
+                  IN  IF "pad" \in DOMAIN st /\ st.pad THEN <<32>> \o body \o <<10, 32>> ELSE body
 
 (***************************************************************************)
 (* A reader for the operator fragment of the grammar (productions          *)
@@ -187,7 +190,7 @@ Read(toks) == LET r == ReadExpr(toks, 1, 1) IN IF r.p = Len(toks) + 1 THEN r.e E
 StyleSeq == << Canonical,
                [abbrev |-> TRUE,  ws |-> 0, parens |-> FALSE],
                [abbrev |-> FALSE, ws |-> 1, parens |-> FALSE],
-               [abbrev |-> TRUE,  ws |-> 2, parens |-> FALSE],
+               [abbrev |-> TRUE,  ws |-> 2, parens |-> FALSE, pad |-> TRUE],
                [abbrev |-> FALSE, ws |-> 0, parens |-> TRUE],
                [abbrev |-> TRUE,  ws |-> 1, parens |-> TRUE] >>
 AllStyleSeq == StyleSeq \o << [abbrev |-> TRUE,  ws |-> 1, parens |-> FALSE],
